@@ -211,7 +211,7 @@ def finish(prop: str, mod, tier: str, seed: int, res: Result, wall: float, extra
         "verdict": ("violated" if unlisted else "inconclusive" if res.inconclusive else "held"),
     }
     os.makedirs(env.EVIDENCE_DIR, exist_ok=True)
-    with open(os.path.join(env.EVIDENCE_DIR, f"{prop}.json"), "w") as f:
+    with open(os.path.join(env.EVIDENCE_DIR, f"{prop}.json" + os.environ.get("VERIF_EVIDENCE_SUFFIX", "")), "w") as f:
         json.dump(ev, f, indent=1)
 
     for k, v in sorted(listed.items()):
